@@ -432,7 +432,407 @@ def random_search(job):
     return None, runs
 
 
+# ------------------------------------------------------------------ sequences of calls (strengthening round 1)
+#
+# The theorems speak about ONE call's emitted commands.  They cover a whole function only if EVERY call site gets
+# exactly the modelled text whatever precedes it in the block / pack.  Sequence packs: several functions per pack,
+# each a sequence of 2-4 Math.random / Math.sqrt calls (same / different ranges, operands, targets; repeated identical
+# calls) with function calls, assignments, execute-wrapped calls, if / while blocks in between.  Expected text of a
+# function = concatenation of the model's text of every item (position independent); the whole function is then run
+# in mcvm and every target is checked against its bounds / isqrt.
+#
+# item := ("call", probe) | ("fn", name) | ("set", var, k) | ("add", var, k) | ("if", var, k, [items]) | ("while", var, k, [items])
+
+SEQ_LO = [-20, -5, 0, 3, 5]         # values of $lo  (every constant max used with $lo is >= 5)
+SEQ_HI = [10, 11, 17, 40]           # values of $hi  (every constant min used with $hi is <= 10)
+SEQ_N = [0, 1, 2, 3, 24, 25, 26, 99, 1225 * 1225 + 1, 46340 * 46340 - 1, INT_MAX]
+
+
+def _L(z):
+    return ("lit", z)
+
+
+def _S(s):
+    return ("score", s)
+
+
+_D = ("default", None)
+
+
+def R(target, lo, hi, wrapped=False, style="pos"):
+    return ("call", dict(kind="random", target=target, lo=lo, hi=hi, wrapped=wrapped, style=style))
+
+
+def Q(target, arg, wrapped=False):
+    return ("call", dict(kind="sqrt", target=target, arg=arg, wrapped=wrapped))
+
+
+SEQ_HELPERS = {
+    "h0": [R("$b0", _L(1), _L(100))],
+    "h1": [R("$b1", _L(-50), _L(-40)), Q("$b2", "$m")],
+    "h2": [R("$b3", _S("$lo"), _S("$hi")), R("$b4", _L(1), _L(100)), R("$b5", _L(1), _L(100))],
+    "h3": [Q("$b6", "$m"), ("fn", "h0"), Q("$b7", "$m")],
+}
+
+
+def seq_fixed():
+    """hand-made shapes: each is a way a call could depend on what precedes it"""
+    r16 = lambda t, **k: R(t, _L(1), _L(6), **k)
+    F = []
+    F.append([r16("$t0"), ("fn", "h0"), r16("$t1")])                              # same range, another roll in between
+    F.append([r16("$t0"), r16("$t1")])                                             # adjacent, same range
+    F.append([r16("$t0"), r16("$t0")])                                             # repeated identical call
+    F.append([r16("$t0"), ("if", "$c0", 1, [R("$t1", _L(1), _L(100)), ("fn", "h1")]), r16("$t2")])
+    F.append([r16("$t0"), R("$t1", _L(1), _L(100), wrapped=True), r16("$t2")])    # execute-wrapped roll in between
+    F.append([("if", "$c0", 2, [r16("$t0"), r16("$t1")]), r16("$t2"), ("fn", "h2"), r16("$t3")])
+    F.append([R("$t0", _L(0), _L(5)), R("$t1", _L(5), _L(10)), R("$t2", _L(-3), _L(2)), r16("$t3")])   # same size, other min
+    F.append([R("$t0", _D, _D), ("fn", "h0"), R("$t1", _D, _D)])
+    F.append([R("$t0", _L(3), _D), ("set", "$z", 5), R("$t1", _L(3), _D, style="kw"), ("fn", "h1"), R("$t2", _L(3), _D)])
+    F.append([Q("$t0", "$n"), ("fn", "h3"), Q("$t1", "$n")])                       # same operand, another sqrt in between
+    F.append([Q("$t0", "$n"), Q("$t0", "$n")])
+    F.append([Q("$t0", "$n"), Q("$t1", "$m"), Q("$t2", "$n"), Q("$t3", "obj:@s")])
+    F.append([Q("$t0", "$n"), ("if", "$c0", 1, [Q("$t1", "$m"), ("add", "$z", 2)]), Q("$t2", "$n", wrapped=True), Q("$t3", "$n")])
+    F.append([r16("$t0"), R("$t1", _S("$t0"), _L(10)), Q("$t2", "$t1")])          # dependent chain
+    F.append([R("$t0", _S("$lo"), _L(9)), ("set", "$z", 1), R("$t1", _S("$lo"), _L(9)), ("fn", "h2"), R("$t2", _S("$lo"), _L(9))])
+    F.append([R("$t0", _S("$lo"), _S("$hi")), ("fn", "h0"), R("$t1", _S("$lo"), _S("$hi")), R("$t2", _S("$lo"), _S("$hi"), wrapped=True)])
+    F.append([R("$t0", _L(2), _S("$hi")), ("add", "$z", 3), R("$t1", _L(2), _S("$hi")), ("fn", "h1"), R("$t2", _L(-7), _S("$hi"))])
+    F.append([r16("$t0"), ("while", "$w0", 3, [r16("$t1"), ("fn", "h0"), ("add", "$w0", 1)]), r16("$t2")])
+    F.append([("while", "$w0", 2, [Q("$t0", "$n"), r16("$t1"), r16("$t2"), ("add", "$w0", 1)]), r16("$t3"), Q("$t0", "$n")])
+    F.append([r16("$t0", wrapped=True), r16("$t1", wrapped=True), r16("$t2"), r16("$t3", wrapped=True)])
+    F.append([R("$t0", _L(INT_MIN), _L(INT_MIN + 5)), ("fn", "h0"), R("$t1", _L(INT_MIN), _L(INT_MIN + 5)), R("$t2", _L(INT_MAX - 5), _L(INT_MAX))])
+    F.append([R("obj:@s", _L(1), _L(6)), ("fn", "h0"), R("obj:@p", _L(1), _L(6)), R("obj:@s", _L(1), _L(6))])
+    return F
+
+
+def seq_random_call(rng, target, theme):
+    r = rng.random()
+    wrapped = rng.random() < 0.15
+    if r < 0.45:
+        lo, hi = theme
+        return R(target, lo, hi, wrapped=wrapped, style=rng.choice(["pos", "pos", "kw"]) if lo[0] != "default" or hi[0] != "default" else "pos")
+    if r < 0.6:
+        return Q(target, rng.choice(["$n", "$n", "$m", "obj:@s"]), wrapped=wrapped)
+    kind = rng.randrange(4)
+    if kind == 0:
+        a = rng.choice([1, 0, -3, 5, rng.randint(-40, 40)])
+        return R(target, _L(a), _L(a + rng.choice([5, 5, 0, 99, rng.randint(0, 50)])), wrapped=wrapped)
+    if kind == 1:
+        return R(target, _S("$lo"), _L(rng.choice([9, 9, 5, 30])), wrapped=wrapped)
+    if kind == 2:
+        return R(target, _L(rng.choice([2, 2, 10, -7])), _S("$hi"), wrapped=wrapped)
+    return R(target, _S("$lo"), _S("$hi"), wrapped=wrapped)
+
+
+def seq_random(rng):
+    themes = [(_L(1), _L(6)), (_L(1), _L(6)), (_L(0), _L(5)), (_L(-2), _L(3)), (_S("$lo"), _L(9)), (_L(2), _S("$hi")),
+              (_S("$lo"), _S("$hi")), (_D, _D), (_L(7), _D)]
+    theme = rng.choice(themes)
+    n_calls = rng.randint(2, 4)
+    targets = [f"$t{i}" for i in range(n_calls)]
+    if rng.random() < 0.2:
+        targets[-1] = targets[0]
+    items, blocks = [], 0
+    for i, t in enumerate(targets):
+        call = seq_random_call(rng, t, theme)
+        if i and rng.random() < 0.7:
+            for _ in range(rng.randint(1, 2)):
+                k = rng.randrange(6)
+                if k <= 2:
+                    items.append(("fn", rng.choice(sorted(SEQ_HELPERS))))
+                elif k == 3:
+                    items.append(("set", "$z", rng.randint(-9, 9)))
+                elif k == 4:
+                    items.append(("add", "$z", rng.randint(1, 9)))
+                elif blocks < 2:
+                    inner = [seq_random_call(rng, f"$u{blocks}", theme)]
+                    inner[0][1]["wrapped"] = False      # a block of one command is inlined by jmc (no private function)
+                    if rng.random() < 0.5:
+                        inner.append(("fn", rng.choice(sorted(SEQ_HELPERS))))
+                    items.append(("if", f"$c{blocks}", rng.randint(1, 3), inner))
+                    blocks += 1
+        if rng.random() < 0.12 and blocks < 2:
+            items.append(("if", f"$c{blocks}", 1, [call, ("fn", "h0")]))
+            blocks += 1
+        else:
+            items.append(call)
+    return items
+
+
+def gen_seq_packs(rng, tier):
+    """list of packs; a pack = ordered list of (function name, items)"""
+    fixed = seq_fixed()
+    n_rand = 30 if tier == "quick" else 300
+    bodies = fixed + [seq_random(rng) for _ in range(n_rand)]
+    packs, per = [], 9
+    for i in range(0, len(bodies), per):
+        chunk = bodies[i:i + per]
+        helpers = [(h, SEQ_HELPERS[h]) for h in sorted(SEQ_HELPERS)]
+        fns = [(f"s{i + j}", b) for j, b in enumerate(chunk)]
+        # helper definitions before, after, or in the middle of their callers
+        where = (i // per) % 3
+        order = helpers + fns if where == 0 else fns + helpers if where == 1 else fns[:len(fns) // 2] + helpers + fns[len(fns) // 2:]
+        packs.append(order)
+    return packs
+
+
+def item_src(it, cert):
+    k = it[0]
+    if k == "call":
+        return probe_stmt(it[1], cert)
+    if k == "fn":
+        return f"{it[1]}();"
+    if k == "set":
+        return f"{it[1]} = {it[2]};"
+    if k == "add":
+        return f"{it[1]} += {it[2]};"
+    inner = " ".join(item_src(x, cert) for x in it[3])
+    if k == "if":
+        return f"if ({it[1]} == {it[2]}) {{ {inner} }}"
+    return f"while ({it[1]} < {it[2]}) {{ {inner} }}"
+
+
+def seq_source(order, cert):
+    return "\n".join(f"function {name}() {{ {' '.join(item_src(x, cert) for x in items)} }}" for name, items in order)
+
+
+class SeqModel:
+    """model terms of one sequence pack: per function file the Coq list of commands, definitions of the calls' models"""
+
+    def __init__(self, pid, ci):
+        self.pid, self.ci = pid, ci
+        self.cert, self.ns = CERTS[ci], NAMESPACES[ci]
+        self.counts = {"sqrt": 0, "random": 0, "if_else": 0, "while_loop": 0}
+        self.defs, self.files, self.ints, self.kinds, self.ncalls = [], [], [], set(), 0
+
+    def block(self, items, label, tail=None):
+        """Coq term (list cmd) of a block; registers nested private functions in self.files"""
+        parts = []
+        for it in items:
+            k = it[0]
+            if k == "call":
+                p = it[1]
+                c = 0
+                if p["wrapped"]:
+                    c = self.counts[p["kind"]]
+                    self.counts[p["kind"]] += 1
+                e = f"E_{self.pid}_{self.ncalls}"
+                self.ncalls += 1
+                self.defs.append(f"Definition {e} := get {model_term(p, self.ci, c)}.")
+                self.kinds.add(p["kind"])
+                self.ints.append(f"e_ints {e}")
+                parts.append(f"e_inline {e}")
+                if p["wrapped"]:
+                    key = f"{self.cert['PRIVATE']}/math_{p['kind']}/{c}"
+                    self.files.append((key, f"(func_name {e} 0)", f"(func_body {e} 0)", f"execute wrapper of `{probe_stmt(p, self.cert)}` in {label}"))
+            elif k == "fn":
+                parts.append(f"[CCall {coq_str(self.ns + ':' + it[1])}]")
+            elif k == "set":
+                parts.append(f"[CSet {score_term(score_of(it[1], self.cert))} {coq_z(it[2])}]")
+            elif k == "add":
+                parts.append(f"[CAdd {score_term(score_of(it[1], self.cert))} {coq_z(it[2])}]")
+            else:
+                grp = "if_else" if k == "if" else "while_loop"
+                n = self.counts[grp]
+                self.counts[grp] += 1
+                key = f"{self.cert['PRIVATE']}/{grp}/{n}"
+                rng_t = f"(Exact {coq_z(it[2])})" if k == "if" else f"(To {coq_z(it[2] - 1)})"
+                line = (f"[CExecute [MIf true (Matches {score_term(score_of(it[1], self.cert))} {rng_t})] "
+                        f"(CCall {coq_str(self.ns + ':' + key)})]")
+                parts.append(line)
+                body = self.block(it[3], f"{label}/{grp}", tail=line if k == "while" else None)
+                self.files.append((key, coq_str(self.ns + ":" + key), body, f"{grp} block of {label}"))
+        if tail:
+            parts.append(tail)
+        return "(" + " ++ ".join(parts or ["[]"]) + ")"
+
+
+def seq_pack_cases(pid, ci, order, res):
+    cert, ns = CERTS[ci], NAMESPACES[ci]
+    fns = functions_of(res["files"], ns)
+    pv = cert["PRIVATE"]
+    sm = SeqModel(pid, ci)
+    fcs, accounted = [], set()
+    for name, items in order:
+        body = sm.block(items, name)
+        sm.files.append((name, coq_str(f"{ns}:{name}"), body, f"sequence function {name}: " + " ".join(item_src(x, cert) for x in items)))
+    for key, mname, mbody, role in sm.files:
+        text = fns.get(key)
+        term, err = mkF(mname, mbody, f"{ns}:{key}", text if text is not None else "<missing function>")
+        fcs.append((term, dict(pack=pid, role=role, real=text, untranslatable=err, function=key)))
+        accounted.add(key)
+    shared, model_ints = [], list(sm.ints)
+    if "sqrt" in sm.kinds:
+        shared += [(f"{pv}/math_sqrt/newton_raphson", f"(sqrt_nr_name nm{ci})", f"(sqrt_nr_body nm{ci})"),
+                   (f"{pv}/math_sqrt/main", f"(sqrt_main_name nm{ci})", f"(sqrt_main_body nm{ci})")]
+        model_ints.append("sqrt_shared_ints")
+    if "random" in sm.kinds:
+        shared += [(f"{pv}/math_random/setup", f"(random_setup_name nm{ci})", f"(random_setup_body nm{ci})"),
+                   (f"{pv}/math_random/main", f"(random_main_name nm{ci})", f"(random_main_body nm{ci})")]
+    for key, mn, mb in shared:
+        text = fns.get(key)
+        term, err = mkF(mn, mb, f"{ns}:{key}", text if text is not None else "<missing function>")
+        fcs.append((term, dict(pack=pid, role="shared private function " + key, real=text, untranslatable=err)))
+        accounted.add(key)
+    for key in sorted(fns):
+        if (key.startswith(f"{pv}/math_sqrt/") or key.startswith(f"{pv}/math_random/")) and key not in accounted:
+            term, err = mkF(coq_str("<model: no such function>"), "[]", f"{ns}:{key}", fns[key])
+            fcs.append((term, dict(pack=pid, role="unexpected private function " + key, real=fns[key])))
+    load = fns.get(cert["LOAD"], "")
+    rest, ints = [], []
+    for ln in load.split("\n"):
+        if ln == "" or re.fullmatch(r"scoreboard objectives add \S+ dummy", ln):
+            continue
+        m = re.fullmatch(r"scoreboard players set (-?\d+) %s (-?\d+)" % re.escape(cert["INT"]), ln)
+        if m and m.group(1) == m.group(2):
+            ints.append(int(m.group(1)))
+            continue
+        rest.append(ln)
+    mload = f"[random_load_line nm{ci}]" if "random" in sm.kinds else "[]"
+    term, err = mkF(coq_str(f"{ns}:{cert['LOAD']}"), mload, f"{ns}:{cert['LOAD']}", "\n".join(rest))
+    fcs.append((term, dict(pack=pid, role="__load__ lines", real=load, untranslatable=err)))
+    ics = [(f"ints_ok ({' ++ '.join(model_ints) if model_ints else '[]'}) {coq_list(coq_z(n) for n in sorted(set(ints)))}",
+            dict(pack=pid, role="integer constants", real_ints=sorted(set(ints))))]
+    return sm.defs, fcs, ics
+
+
+def helper_writes(name, seen=()):
+    out = set()
+    for it in SEQ_HELPERS[name]:
+        out |= item_writes(it)
+    return out
+
+
+def item_writes(it):
+    k = it[0]
+    if k == "call":
+        return {it[1]["target"]}
+    if k == "fn":
+        return helper_writes(it[1])
+    if k in ("set", "add"):
+        return {it[1]}
+    out = set()
+    for x in it[3]:
+        out |= item_writes(x)
+    return out
+
+
+def seq_events(items, conds=(), loopw=frozenset()):
+    """execution-ordered events: ("call", probe, conds, loop_writes) / ("write", {sources}, conds)
+    conds = ((kind, var, k), ...) of the enclosing blocks; loop_writes = what later iterations of the enclosing
+    while bodies write (own target excluded: the last iteration's value is the one observed)"""
+    ev = []
+    for it in items:
+        k = it[0]
+        if k == "call":
+            ev.append(("call", it[1], conds, frozenset(loopw - {it[1]["target"]})))
+            ev.append(("write", {it[1]["target"]}, conds))
+        elif k in ("if", "while"):
+            lw = loopw
+            if k == "while":
+                w = set()
+                for x in it[3]:
+                    w |= item_writes(x)
+                lw = frozenset(loopw | w)
+            ev += seq_events(it[3], conds + ((k, it[1], it[2]),), lw)
+        else:
+            ev.append(("write", item_writes(it), conds))
+    return ev
+
+
+def seq_init(ev, cert, taken, seed, opset):
+    lo, hi, n, m, o = opset
+    V = cert["VAR"]
+    init = {("$bystander", V): 12345, ("__math__.seed", V): seed, ("$lo", V): lo, ("$hi", V): hi, ("$n", V): n,
+            ("$m", V): m, ("@s", "obj"): o, ("$z", V): 7}
+    for e in ev:
+        if e[0] == "write":
+            for w in e[1]:
+                init.setdefault(score_of(w, cert), -99)
+    for e in ev:
+        for (k, var, kk) in e[2]:
+            init[score_of(var, cert)] = (kk if k == "if" else 0) if taken else kk + 1
+    return init
+
+
+def seq_check_run(fns, ns, cert, fname, items, init, taken):
+    """run the function once from `init`; the first call whose target breaks its contract, or None"""
+    ev = seq_events(items)
+    V = cert["VAR"]
+    vm, before, err = run_case(fns, ns, cert, fname, init)
+    base = dict(init=init_list(init), blocks_taken=taken)
+    if err:
+        return dict(kind=err, expected="the function runs to its end", actual=None, **base)
+    all_writes, uncond = set(), set()
+    for e in ev:
+        if e[0] == "write":
+            all_writes |= e[1]
+            if not e[2]:
+                uncond |= e[1]
+    for idx, e in enumerate(ev):
+        if e[0] != "call":
+            continue
+        _, p, conds, loopw = e
+        t = score_of(p["target"], cert)
+        later = set(loopw)
+        for e2 in ev[idx + 2:]:
+            if e2[0] == "write":
+                later |= e2[1]
+        if conds and not taken:
+            if p["target"] not in uncond and vm.s.get(t) != before.get(t):
+                return dict(kind="guard-ignored", statement=probe_stmt(p, cert), expected=before.get(t), actual=vm.s.get(t), **base)
+            continue
+        if p["target"] in later:
+            continue
+        got = vm.s.get(t)
+        if p["kind"] == "sqrt":
+            if p["arg"] in later or p["arg"] == p["target"]:
+                continue
+            a = vm.s.get(score_of(p["arg"], cert))
+            if a is None or a < 0:
+                continue
+            if got != isqrt(a):
+                return dict(kind="wrong-value", statement=probe_stmt(p, cert), expected=isqrt(a), actual=got, arg=a, **base)
+        else:
+            bounds, skip = [], False
+            for o_ in (eff_lo(p), eff_hi(p)):
+                if o_[0] == "lit":
+                    bounds.append(o_[1])
+                elif o_[1] in later or o_[1] == p["target"]:
+                    skip = True
+                else:
+                    bounds.append(vm.s.get(score_of(o_[1], cert)))
+            if skip or None in bounds:
+                continue
+            if got is None or not (bounds[0] <= got <= bounds[1]):
+                return dict(kind="out-of-bounds", statement=probe_stmt(p, cert),
+                            expected=f"{bounds[0]} <= {p['target']} <= {bounds[1]}", actual=got, lo=bounds[0], hi=bounds[1], **base)
+    allowed = {score_of(w, cert) for w in all_writes} | {(str(INT_MIN), cert["INT"]), ("$q", V)}
+    ff = frame_failure(vm, before, cert, allowed)
+    if ff:
+        return dict(kind="other-score-changed", detail=ff, expected="unchanged", actual=ff["after"], **base)
+    return None
+
+
+def seq_search(job):
+    """job: (fns, ns, cert, fname, items, seeds, operand sets).  (first failure or None, number of runs)"""
+    fns, ns, cert, fname, items, seeds, opsets = job
+    ev = seq_events(items)
+    has_blocks = any(e[2] for e in ev)
+    runs = 0
+    for taken in ((True, False) if has_blocks else (True,)):
+        for opset in (opsets if taken else opsets[:1]):
+            for s in (seeds if taken else seeds[:2]):
+                init = seq_init(ev, cert, taken, s, opset)
+                runs += 1
+                f = seq_check_run(fns, ns, cert, fname, items, init, taken)
+                if f:
+                    return f, runs
+    return None, runs
+
+
 def _search(job):
+    if job[0] == "seq":
+        return seq_search(job[1:])
     if job[4]["kind"] == "sqrt":
         return sqrt_search(job)
     return random_search(job)
@@ -485,8 +885,15 @@ def main(tier: str) -> int:
         for p in ERROR_PROBES:
             err_jobs.append((ci, p, dict(src=f"function p() {{ {probe_stmt(p, cert)} }}", cert=cert_text(cert),
                                          namespace=NAMESPACES[ci])))
-    results = compile_batch(jobs + [j for _, _, j in err_jobs], chunk=40)
-    err_results = results[len(jobs):]
+    seq_orders = gen_seq_packs(ck.rng, tier)
+    seq_packs, seq_jobs = [], []
+    for ci, cert in enumerate(CERTS):
+        for k, order in enumerate(seq_orders):
+            seq_packs.append(dict(id=f"c{ci}q{k}", ci=ci, order=order))
+            seq_jobs.append(dict(src=seq_source(order, cert), cert=cert_text(cert), namespace=NAMESPACES[ci], timeout=60))
+    results = compile_batch(jobs + [j for _, _, j in err_jobs] + seq_jobs, chunk=40)
+    seq_results = results[len(jobs) + len(err_jobs):]
+    err_results = results[len(jobs):len(jobs) + len(err_jobs)]
     results = results[:len(jobs)]
 
     defs = [f"Definition nm{ci} := {names_term(ci)}." for ci in range(len(CERTS))]
@@ -506,6 +913,15 @@ def main(tier: str) -> int:
         fcases += f
         icases += i
         pack_ints[pack["id"]] = ints
+    for pack, res, job in zip(seq_packs, seq_results, seq_jobs):
+        if not res["ok"]:
+            echecks.append(("false", dict(pack=pack["id"], role="sequence pack failed to compile", program=job["src"],
+                                          exc=res["exc"], msg=res["msg"][:300])))
+            continue
+        d, f, i = seq_pack_cases(pack["id"], pack["ci"], pack["order"], res)
+        defs += d
+        fcases += f
+        icases += i
     for (ci, p, job), res in zip(err_jobs, err_results):
         failed = (not res["ok"]) and res.get("exc") == "JMCValueError"
         echecks.append((f"err_ok {model_term(p, ci, 0)} {'true' if failed else 'false'}",
@@ -558,6 +974,21 @@ def main(tier: str) -> int:
                 seeds = seeds_all if pack["single"] is not None else seeds_all[:6]
                 sjobs.append((fns, ns, cert, fname, p, pairs, seeds))
             smeta.append((pack, fname, p))
+    n_single_jobs = len(sjobs)
+    seq_seeds = SEEDS[:10] + [ck.rng.randint(INT_MIN, INT_MAX) for _ in range(4 if tier == "quick" else 20)]
+    n_seq_calls = 0
+    for pack, res, job in zip(seq_packs, seq_results, seq_jobs):
+        if not res["ok"]:
+            continue
+        ci = pack["ci"]
+        cert, ns = CERTS[ci], NAMESPACES[ci]
+        fns = functions_of(res["files"], ns)
+        for fname, items in pack["order"]:
+            opsets = [(ck.rng.choice(SEQ_LO), ck.rng.choice(SEQ_HI), ck.rng.choice(SEQ_N), ck.rng.choice(SEQ_N), ck.rng.choice(SEQ_N))
+                      for _ in range(2 if tier == "quick" else 5)] + [(5, 10, 0, INT_MAX, 1)]
+            sjobs.append(("seq", fns, ns, cert, fname, items, seq_seeds, opsets))
+            smeta.append((pack, fname, dict(kind="sequence", items=items, src=job["src"])))
+            n_seq_calls += sum(1 for e in seq_events(items) if e[0] == "call")
     with ProcessPoolExecutor(max_workers=max(1, min(NCPU, 8))) as ex:
         sres = list(ex.map(_search, sjobs, chunksize=4))
     n_runs = sum(r for _, r in sres)
@@ -568,6 +999,16 @@ def main(tier: str) -> int:
             continue
         sem_failed_packs.add(pack["id"])
         cert = CERTS[pack["ci"]]
+        if p["kind"] == "sequence":
+            key = ("sequence", fail["kind"].split(":")[0], fail.get("statement"))
+            if key in reported or sum(1 for k in reported if k[0] == "sequence") >= 4:
+                continue
+            reported.add(key)
+            ck.violation(dict(kind="sequence-semantic-failure", program=p["src"], jmc_txt=cert, namespace=NAMESPACES[pack["ci"]],
+                              function=fname, items=p["items"], failure=fail, expected=fail.get("expected"), actual=fail.get("actual"),
+                              note="the whole function (real emitted text) run in mcvm after __load__ from the given initial scores; "
+                                   "the named call's target breaks its contract"))
+            continue
         key = (p["kind"], p["lo"][0] if p["kind"] == "random" else "", p["hi"][0] if p["kind"] == "random" else "",
                fail["kind"].split(":")[0], p["wrapped"])
         if key in reported:
@@ -622,8 +1063,12 @@ def main(tier: str) -> int:
              "of the model (operand-kind combination, literal sign/INT_MIN, default/keyword form, aliasing, execute)",
         samples=[dict(statement=probe_stmt(p, CERTS[0]), emitted=functions_of(results[i]["files"], NAMESPACES[0]).get("p"))
                  for i, p in list(enumerate(probes))[:2] + list(enumerate(probes))[18:20] if results[i]["ok"]],
-        programs=len(jobs) + len(err_jobs), disagreements_checked=len(bad_f) + len(bad_i) + len(bad_e),
+        programs=len(jobs) + len(err_jobs) + len(seq_jobs), disagreements_checked=len(bad_f) + len(bad_i) + len(bad_e),
         semantic_runs=n_runs, sqrt_values_checked=len(sq_vals), branch_histogram=hist,
+        sequence_packs=len(seq_packs), sequence_functions=sum(len(pk["order"]) for pk in seq_packs), sequence_calls=n_seq_calls,
+        sequence_rule="functions holding 2-4 Math.random/Math.sqrt calls (same/different ranges, operands, targets; repeated calls) with function "
+                      "calls, assignments, execute-wrapped calls, if/while blocks in between; expected text of every function and block = concatenation "
+                      "of the model's text of each item; every function run in mcvm, every observable target checked",
         correspondence="parsed emitted terms = model terms (decided equality) and pr_cmds(parsed) = emitted text, for every file",
     ))
     return ck.finish()
@@ -633,6 +1078,8 @@ def main(tier: str) -> int:
 
 def replay(path) -> int:
     r = json.loads(open(path).read())
+    if r.get("kind") == "sequence-semantic-failure":
+        return replay_sequence(r)
     if r.get("kind") != "semantic-failure":
         print(f"replay file {path} holds no concrete input (kind={r.get('kind')}); re-run ./check C20")
         print(json.dumps(r, indent=1)[:3000])
@@ -664,3 +1111,40 @@ def replay(path) -> int:
         bad = err or got is None or not (a <= got <= b) or frame_failure(vm, before, cert, {t, (str(INT_MIN), cert["INT"])})
     print("emitted:\n" + (fns.get(r["function"]) or "<missing>"))
     return 1 if bad else 0
+
+
+def _tuplify(items):
+    out = []
+    for it in items:
+        it = list(it)
+        if it[0] == "call":
+            p = dict(it[1])
+            for k in ("lo", "hi"):
+                if p.get(k) is not None:
+                    p[k] = tuple(p[k])
+            out.append(("call", p))
+        elif it[0] in ("if", "while"):
+            out.append((it[0], it[1], it[2], _tuplify(it[3])))
+        else:
+            out.append(tuple(it))
+    return out
+
+
+def replay_sequence(r) -> int:
+    cert, ns, fail = r["jmc_txt"], r["namespace"], r["failure"]
+    items = _tuplify(r["items"])
+    res, = compile_batch([dict(src=r["program"], cert=cert_text(cert), namespace=ns, timeout=60)])
+    print(f"function {r['function']}: {' '.join(item_src(x, cert) for x in items)}\ninit: {fail['init']}  repo: {REPO}")
+    if not res["ok"]:
+        print(f"expected: compiles; actual: {res['exc']}: {res['msg'][:300]}")
+        return 1
+    fns = functions_of(res["files"], ns)
+    init = {(h, o): v for h, o, v in fail["init"]}
+    f = seq_check_run(fns, ns, cert, r["function"], items, init, fail.get("blocks_taken", True))
+    print("emitted:\n" + (fns.get(r["function"]) or "<missing>"))
+    if f:
+        print(f"FAILS: {f['kind']} at `{f.get('statement')}`: expected {f.get('expected')}; actual {f.get('actual')}")
+        return 1
+    print(f"holds: every call's target meets its contract (recorded failure: {fail['kind']} at `{fail.get('statement')}`, "
+          f"expected {fail.get('expected')}, actual {fail.get('actual')})")
+    return 0
